@@ -32,7 +32,20 @@ type AtAssert struct {
 	Clause Clause
 }
 
+type GhostVar struct {
+	Name string
+	Type *TypeExpr
+}
+
+type AfterSet struct {
+	Target string
+	Name   string
+	Clause Clause
+}
+
 type FuncContract struct {
+	Ghosts   []GhostVar
+	Afters   []AfterSet
 	Pkg      string
 	Name     string // Recv.Name or Name
 	Props    []string
@@ -95,7 +108,7 @@ type ContractSet struct {
 	assumeCount int
 }
 
-var clauseKeywords = map[string]bool{"requires": true, "ensures": true, "loop": true, "safe": true, "pure": true, "trusted": true, "at": true, "var": true, "let": true, "assert": true, "results": true}
+var clauseKeywords = map[string]bool{"ghost": true, "after": true, "requires": true, "ensures": true, "loop": true, "safe": true, "pure": true, "trusted": true, "at": true, "var": true, "let": true, "assert": true, "results": true}
 var topKeywords = map[string]bool{"func": true, "spec": true, "axiom": true, "lemma": true, "bind": true}
 
 var propTagRe = regexp.MustCompile(`\[(C[0-9]+(?:\s*,\s*C[0-9]+)*)\]`)
@@ -343,6 +356,44 @@ func (cs *ContractSet) parseFile(repo, path string) error {
 			default:
 				return fail(l, "unknown loop clause %q", fs[1])
 			}
+		case "ghost":
+			if curF == nil {
+				return fail(l, "ghost outside func")
+			}
+			fs := strings.Fields(rest)
+			if len(fs) != 2 {
+				return fail(l, "ghost needs 'name Type'")
+			}
+			toks, err := lexExpr(fs[1])
+			if err != nil {
+				return fail(l, "%v", err)
+			}
+			ps := &exprParser{toks: toks, src: rest}
+			ty, err := ps.parseType()
+			if err != nil {
+				return fail(l, "%v", err)
+			}
+			curF.Ghosts = append(curF.Ghosts, GhostVar{Name: fs[0], Type: ty})
+		case "after":
+			if curF == nil {
+				return fail(l, "after outside func")
+			}
+			// after call TARGET set NAME = EXPR
+			fs := strings.Fields(rest)
+			i := strings.Index(rest, " set ")
+			if len(fs) < 5 || fs[0] != "call" || i < 0 {
+				return fail(l, "after clause needs 'after call TARGET set NAME = EXPR'")
+			}
+			asg := rest[i+len(" set "):]
+			j := strings.Index(asg, "=")
+			if j < 0 {
+				return fail(l, "after clause needs an assignment")
+			}
+			c, err := mkClause(l, asg[j+1:], nil)
+			if err != nil {
+				return err
+			}
+			curF.Afters = append(curF.Afters, AfterSet{Target: fs[1], Name: strings.TrimSpace(asg[:j]), Clause: c})
 		case "safe":
 			if curF == nil {
 				return fail(l, "safe outside func")
